@@ -236,6 +236,55 @@ def overload_programs():
     return out
 
 
+def generic_overload_programs():
+    """several *generic* overloads of one operator: the one whose parameter types equal the operand types (under one
+    consistent binding of its type parameters) is called, whatever was tried and rejected before it; pairs of operands that
+    fit several generic overloads are not judged (the property does not rank them)"""
+    H = ('Binde "Duden/Ausgabe" ein.\n\nWir nennen die Kombination aus\n\tder Zahl x mit Standardwert 0,\neinen Punkt, und erstellen sie so:\n\t"ein Punkt bei <x>"\n\n'
+         'Wir nennen die Kombination aus\n\tder Zahl dx mit Standardwert 0,\neinen Vektor, und erstellen sie so:\n\t"ein Vektor um <dx>"\n\n')
+    V = 'Der Punkt p ist ein Punkt bei 7.\nDer Vektor v ist ein Vektor um 3.\nDie Zahl z ist 2.\nDer Text t ist "txt".\n'
+    tyname = {"P": "Punkt", "V": "Vektor", "Z": "Zahl", "X": "Text", "T": "T", "R": "R"}
+    operand = {"P": "p", "V": "v", "Z": "z", "X": "t"}
+    patterns = [("P", "T"), ("T", "Z"), ("V", "T"), ("T", "X"), ("T", "T"), ("Z", "T"), ("T", "R")]
+
+    def matches(pat, a, b):
+        bind = {}
+        for want, got in zip(pat, (a, b)):
+            if want in ("T", "R"):
+                if bind.setdefault(want, got) != got:
+                    return False
+            elif want != got:
+                return False
+        return True
+    out = []
+    for i in range(len(patterns)):
+        for j in range(len(patterns)):
+            if i == j or {patterns[i], patterns[j]} == {("T", "T"), ("T", "R")}:
+                continue        # (T, R) covers (T, T): declared in this order the second one is refused as a duplicate
+            for op, tmpl, builtin in (("plus", "%s plus %s", 4), ("mal", "%s mal %s", 4)):
+                pats = [patterns[i], patterns[j]]
+                decls = ""
+                for k, pat in enumerate(pats):
+                    decls += ('Die generische Funktion ueber%d mit den Parametern a und b vom Typ %s und %s, gibt eine Zahl zurück, macht:\n\tGib %d zurück.\nUnd überlädt den "%s" Operator.\n\n'
+                              % (k, tyname[pat[0]], tyname[pat[1]], 1000 + k, op))
+                body, exp = "", ""
+                for a in "PVZ":
+                    for b in "PVZX":
+                        m = [k for k, pat in enumerate(pats) if matches(pat, a, b)]
+                        if a not in "PV" and b not in "PV":
+                            # overloads are looked up for Kombinationen and type definitions; two built-in operands keep the built-in meaning
+                            if a == "Z" and b == "Z":
+                                body += "Schreibe die Zahl (%s) auf eine Zeile.\n" % (tmpl % (operand[a], operand[b]))
+                                exp += "%d\n" % builtin
+                            continue
+                        if len(m) == 1:
+                            body += "Schreibe die Zahl (%s) auf eine Zeile.\n" % (tmpl % (operand[a], operand[b]))
+                            exp += "%d\n" % (1000 + m[0])
+                if body:
+                    out.append(("generic-overloads:%s:%s%s/%s%s" % ((op,) + pats[0] + pats[1]), H + decls + V + body, exp))
+    return out
+
+
 def referenz_overload_programs():
     """an operator overloaded twice for the same types, by value and by Referenz: the Referenz variant is chosen exactly for
     operands that are assignable (variables, list elements, fields, elements of fields, fields of elements, in any nesting) —
@@ -483,7 +532,7 @@ def check(res, tier):
     # (2b) argument spans and binding by name
     span_stage(res, harness, model, rng, quick, st)
     # (3) fixed programs, operator overloads over aliases and type definitions
-    fixed_all = FIXED + overload_programs() + referenz_overload_programs() + referenz_alias_programs()
+    fixed_all = FIXED + overload_programs() + generic_overload_programs() + referenz_overload_programs() + referenz_alias_programs()
     fixed = pipeline.farm(ddp, [({"main.ddp": s}, pipeline.Config(opt=1), {}) for _, s, _ in fixed_all])
     for (name, src, want), r in zip(fixed_all, fixed):
         res.evaluations += 1
